@@ -199,7 +199,7 @@ class CLI:
             for file in self._args.files:
                 try:
                     mo = MosFile.from_file(file)
-                except MosRoMgrException as e:
+                except (MosRoMgrException, OSError) as e:
                     sys.stderr.write(f"{file}: Invalid\n")
                     continue
                 self.detect_file(mo, file)
